@@ -416,6 +416,61 @@ fn scripted(v: Variant) -> Vec<Hist> {
             });
         }
     }
+    // each variant's OWN migrate entry point (same code id, by the wasm admin): once, twice in
+    // a row, alternating with royalty updates, from the record as it is and from rewritten
+    // records around every version literal (what a migrate records afterwards matters:
+    // metadata-onchain records 3.0.0)
+    {
+        let mut cw2s: Vec<Option<(String, String)>> = vec![None];
+        if v != Variant::UpdatableMigrated {
+            for ver in version_grid_self() {
+                cw2s.push(Some((own_name(v).to_string(), ver)));
+            }
+            if v == Variant::Updatable {
+                cw2s.push(Some((NAME_UPD_LEGACY.to_string(), "3.0.9".into())));
+            }
+            if v == Variant::Onchain {
+                cw2s.push(Some(("crates.io:something-else".to_string(), "3.0.9".into())));
+            }
+        }
+        let hour = 3_600_000_000_000u64;
+        for (i, cw2) in cw2s.into_iter().enumerate() {
+            let a = t0 + DAY_NS;
+            out.push(Hist {
+                setup: Setup { cw2: cw2.clone(), ..setup_with(v, Some(5 * PCT)) },
+                steps: vec![
+                    st(a, "creator", upd_roy(7 * PCT)),
+                    st(a + 1, "alice", Op::MigrateSelf),
+                    st(a + 1, "creator", Op::MigrateSelf),
+                    st(a + hour, "creator", upd_roy(9 * PCT)),
+                    st(a + hour + 1, "creator", Op::MigrateSelf),
+                    st(a + hour + 1, "creator", Op::MigrateSelf),
+                    st(a + hour + 2, "creator", upd_roy(9 * PCT)),
+                    st(a + DAY_NS - 1, "creator", upd_roy(9 * PCT)),
+                    st(a + DAY_NS, "creator", upd_roy(9 * PCT)),
+                    st(a + DAY_NS + 1, "creator", Op::MigrateSelf),
+                    st(a + DAY_NS + 2, "creator", upd_roy(10 * PCT)),
+                    st(a + 2 * DAY_NS, "creator", upd_roy(10 * PCT)),
+                ],
+            });
+            if i % 2 == 0 {
+                out.push(Hist {
+                    setup: Setup { cw2, ..setup_with(v, Some(5 * PCT)) },
+                    steps: vec![
+                        st(t0 + 10, "creator", Op::MigrateSelf),
+                        st(t0 + 11, "creator", Op::MigrateSelf),
+                        st(t0 + 12, "creator", upd_roy(6 * PCT)),
+                        st(t0 + DAY_NS - 1, "creator", upd_roy(6 * PCT)),
+                        st(t0 + DAY_NS, "creator", upd_roy(6 * PCT)),
+                        st(t0 + DAY_NS + 1, "creator", Op::MigrateSelf),
+                        st(t0 + DAY_NS + 1, "creator", Op::Migrate),
+                        st(t0 + DAY_NS + 2, "creator", Op::MigrateSelf),
+                        st(t0 + DAY_NS + 3, "creator", upd_roy(8 * PCT)),
+                    ],
+                });
+            }
+        }
+    }
     // u64 clock overflow of anchor + 24 h
     out.push(Hist {
         setup: Setup { time0: u64::MAX - DAY_NS + 1, ..setup_with(v, Some(5 * PCT)) },
@@ -437,6 +492,8 @@ fn random_hist(v: Variant, rng: &mut Rng, len: usize) -> Runner {
     if rng.chance(1, 3) && matches!(v, Variant::Base | Variant::Updatable) {
         let n = if v == Variant::Base { *rng.pick(&[NAME_BASE, NAME_BASE_LEGACY]) } else { *rng.pick(&[NAME_UPD, NAME_UPD_LEGACY]) };
         setup.cw2 = Some((n.to_string(), rng.pick(&version_grid()).clone()));
+    } else if rng.chance(1, 3) && v != Variant::UpdatableMigrated {
+        setup.cw2 = Some((own_name(v).to_string(), rng.pick(&version_grid_self()).clone()));
     }
     let mut r = Runner::new(&setup);
     if !r.alive() {
@@ -469,6 +526,7 @@ fn random_hist(v: Variant, rng: &mut Rng, len: usize) -> Runner {
             2 => Op::UpdateInfo(UpdSpec { description: Some("other".into()), ..Default::default() }),
             3 => Op::Mint { id: rng.below(3), owner: "alice".into(), uri: None },
             4 => Op::Migrate,
+            5 | 6 => Op::MigrateSelf,
             _ => {
                 let c = cur.unwrap_or(0);
                 let share = match rng.below(14) {
@@ -527,6 +585,11 @@ pub fn history_monitor(r: &Runner) -> Option<(String, String)> {
     }
     let mut last_accept: Option<u64> = None;
     let mut anchor = r.setup.time0; // last accepted change, or creation
+    // the harness rewrote the cw2 record to a version below 3.1.0: the collection stands for
+    // a deployment that predates the cadence anchor.  Its FIRST successful migration may
+    // create the anchor (now - 24 h); this excuse is used up by that migration - a record
+    // below 3.1.0 that a migrate itself wrote (metadata-onchain records 3.0.0) earns none.
+    let mut predates_anchor = matches!(&r.setup.cw2, Some((_, ver)) if parse_triple(ver) < (3, 1, 0));
     let mut frozen = false;
     for (i, rec) in r.recs.iter().enumerate() {
         let since = anchor; // last accepted change before this step (or creation)
@@ -594,9 +657,14 @@ pub fn history_monitor(r: &Runner) -> Option<(String, String)> {
         // a deployment older than 3.1.0 has no cadence anchor at all (the field was added
         // in 3.1.0); its migration creates one at now - 24 h, so the cadence starts there.
         // Any other migration must leave the cadence alone.
-        if rec.ok && matches!(rec.step.op, Op::Migrate) && parse_triple(&rec.before.cw2.1) < (3, 1, 0) {
-            last_accept = None;
-            anchor = rec.step.at.saturating_sub(DAY_NS);
+        if rec.ok && matches!(rec.step.op, Op::Migrate | Op::MigrateSelf) {
+            if predates_anchor && parse_triple(&rec.before.cw2.1) < (3, 1, 0) && rec.before.cw2 != rec.after.cw2 {
+                last_accept = None;
+                anchor = rec.step.at.saturating_sub(DAY_NS);
+            }
+            if rec.before.cw2 != rec.after.cw2 {
+                predates_anchor = false;
+            }
         }
     }
     None
